@@ -475,7 +475,7 @@ def f14_rebuilds(elfi, o1='a', o2='a_b', n=30, seed=1, bs=3):
 
 
 # ---------------------------------------------------------------------- the sort on all small DAGs
-SORT_NAMES = ['b', '_a_1f', 'a', '_zz', 'c']
+SORT_NAMES = ['b', 'B', '_a_1f', 'a', 'A']      # includes names that differ only in case (a non-injective sort key would tie them)
 
 
 def all_dags(n):
@@ -558,8 +558,13 @@ def run(tier='quick', seed=0, first_failure_only=True, n_models=None):
     cases = nontriv = 0
     failures = []
     specs = [random_spec(rng, rng.randint(2, 5) if k else 5) for k in range(n_models)]
+    # two INDEPENDENT stochastic siblings whose names differ only in case, built in both insertion orders (check_model tries every
+    # linear extension): a sort key that ties them would hand them the generator in insertion order
+    for lo, up in (('s', 'S'), ('mu', 'MU'), ('r0', 'R0')):
+        specs.append([(lo, 'prior', (), 1), (up, 'prior', (), 1), ('y', 'sim', (lo, up), 0)])
+        specs.append([(up, 'scipy', (), 2), (lo, 'sim', (), 1), ('y', 'op', (up, lo), 0)])
     for k, spec in enumerate(specs):
-        others = [specs[(k + 1) % len(specs)]] if k % 2 == 0 else []
+        others = [specs[(k + 1) % len(specs)]] if k % 2 == 0 and k < n_models else []
         try:
             c, nt, f = check_model(elfi, spec, seeds, sizes, rng, others=others)
         except native.NativeTimeout as e:
@@ -590,7 +595,7 @@ def run(tier='quick', seed=0, first_failure_only=True, n_models=None):
                 failures.append(dict(signature='c02:submit-override-not-an-output' if bad[0][1] != '' else 'c02:smc-repeat', what='submit(batch) with keys %s, requested outputs %s' % bad[0] if bad[0][1] != '' else bad[0][0], input=dict(probe='submit')))
         except Exception as e:
             failures.append(dict(signature='c02:exception', what='SMC probe: %s: %s' % (type(e).__name__, str(e)[:200]), input=dict(probe='submit')))
-    return dict(name='seeded-runs-end-to-end', bound='%d generated models <= 5 user nodes x seeds %s x batch sizes %s x {global-RNG perturbation, unrelated earlier runs, '
+    return dict(name='seeded-runs-end-to-end', bound='%d generated models <= 5 user nodes + 6 models with two independent stochastic nodes named alike up to case x seeds %s x batch sizes %s x {global-RNG perturbation, unrelated earlier runs, '
                 '<= 3 insertion orders, 3 request orders over one BatchHandler}; one seeded Rejection run repeated%s; native client'
                 % (n_models, list(seeds), list(sizes), '' if tier == 'quick' else '; SMC submit-override monitor'),
                 rule='non-trivial = model with >= 2 stochastic nodes (their relative order is observable in the draws)', cases=cases, nontrivial=nontriv, failures=failures)
